@@ -75,6 +75,7 @@ def init():
     bootstrap_hypothesis()
     quiet()
     import qce_circuit  # noqa: F401
+    quiet()             # again: the library installs its own warning filters at import
     loaded = os.path.abspath(qce_circuit.__file__)
     if not loaded.startswith(os.path.join(REPO_DIR, "src")):
         print(f"HARNESS-ERROR: qce_circuit imported from {loaded}, expected under {REPO_DIR}/src", file=sys.stderr)
